@@ -123,7 +123,14 @@ def _oracle():
         text, q = _split_charge(row["formula"])
         out["aa"][row["code"]] = {"atoms": _atoms_of(text), "V": row["V"], "q": q, "of": None,
                                   "text": row["formula"], "name": row["name"]}
-    for target, codes, name in lit["averages"]:
+    # the ambiguity classes are the documented IUPAC ones (module comments `#B: D or N` ...): taken from the documentation, so
+    # that the oracle does not depend on how the code spells its table construction
+    doc_averages = [("B", "DN", None), ("J", "LI", None), ("Z", "EQ", None), ("X", "ACDEFGHIKLMNPQRSTVWY", "any"), ("-", "", "gap")]
+    found = sorted((t, c) for t, c, _n in lit["averages"])
+    if found != sorted((t, c) for t, c, _n in doc_averages):
+        out.setdefault("notes", []).append("the source does not spell the ambiguity classes as five literal _set_amino_acid_average calls "
+                                           "(found %r); the documented classes are used" % (found,))
+    for target, codes, name in doc_averages:
         a, V, q = _avg([(out["aa"][c]["atoms"], out["aa"][c]["V"], out["aa"][c]["q"]) for c in codes])
         out["aa"][target] = {"atoms": a, "V": V, "q": q, "of": codes, "text": None, "name": name}
     for row in T["NUCLEIC_ACID_COMPONENTS"]:
